@@ -5,7 +5,8 @@ P: coq/theories/Props/C01_prims.v over Prims/{Spec,Vm,Wasm}.v: the abstract cont
    implementations (vm/primitives.rs + the interpreter's instructions + vm/heap.rs + slotmap; the host functions of wasm.rs);
    simulation theorems: for EVERY operation sequence that satisfies the stated hypotheses (extracted predicates vm_pre / wasm_pre)
    each implementation's results are the specification's results through the handle tables, hence the two agree; outside the
-   hypotheses: *_differs lemmas with witnesses.
+   hypotheses: *_differs lemmas with witnesses.  usersum_clone / usersum_release (Prims/Usersum.v: the VM's type-directed walks
+   with cascading release, the WASM host's no-ops) are transcribed and compared, not part of the theorems' operation language.
 C: extracted models (ocaml/prims_drv.ml) vs the REAL implementations (harness/lang/src/bin/prims_run.rs: a Machine driven through
    the trait RuntimePrimitives and through the interpreter's instructions; a WasmEngine whose module re-exports the host functions)
    on generated operation sequences: every result, the final state words and cursor, raw handles included.
@@ -286,16 +287,135 @@ class Gen:
         return "S=%d;N=%d;R=%s;M=%s;%s" % (self.S, self.now, SR, mode, ";".join(self.ops))
 
 
-STYLES = ["heap", "state", "state", "array", "array", "mixed", "mixed", "malformed", "malformed", "trait"]
+# ------------------------------------------------------------------------------------------------
+# usersum_clone / usersum_release: typed values over boxed objects (VM: a type-directed walk; WASM host: nothing)
+# types: ('N',k) ('B',t) ('A',name) ('S',name,[variant or None]) ('T',[t])
+# ------------------------------------------------------------------------------------------------
+def ty_show(t):
+    k = t[0]
+    if k == "N":
+        return "N%d" % t[1]
+    if k == "A":
+        return "A%d" % t[1]
+    if k == "B":
+        return "B(%s)" % ty_show(t[1])
+    if k == "S":
+        return "S%d(%s)" % (t[1], "/".join("-" if v is None else ty_show(v) for v in t[2]))
+    return "T(%s)" % "/".join(ty_show(x) for x in t[1])
+
+
+def ty_size(t):
+    k = t[0]
+    if k == "N":
+        return t[1]
+    if k in "AB":
+        return 1
+    if k == "S":
+        return 1 + max([ty_size(v) for v in t[2] if v is not None] or [0])
+    return sum(ty_size(x) for x in t[1])
+
+
+LIST = ("S", 1, [None, ("T", [("N", 1), ("A", 1)])])                       # type rec List = Nil | Cons(float, List)
+TREE = ("S", 2, [("T", [("A", 2), ("N", 1), ("A", 2)]), None])            # type rec Tree = Node(Tree, float, Tree) | Leaf
+PAIR = ("T", [("N", 1), ("B", ("N", 2)), ("B", ("T", [("N", 1), ("B", ("N", 1))]))])
+OPT = ("S", 3, [("B", ("N", 1)), None, ("T", [("B", ("N", 1)), ("N", 2), ("B", ("N", 1))])])
+WRAP = ("T", [LIST, ("B", ("N", 1)), TREE])
+TABLES = [[LIST], [TREE, LIST], [PAIR, OPT], [LIST, PAIR, OPT, TREE, WRAP]]
+
+
+class UGen:
+    def __init__(self, rng):
+        self.r = rng
+        self.tt = rng.choice(TABLES)
+        self.ops = []
+        self.nheap = 0
+        self.pool = {}      # type text -> handles of objects holding a value of that type
+
+    def sum_named(self, name):
+        for t in self.tt + [LIST, TREE]:
+            if t[0] == "S" and t[1] == name:
+                return t
+        return LIST
+
+    def box(self, inner, depth):
+        r = self.r
+        key = ty_show(inner)
+        if self.pool.get(key) and r.chance(1, 4):
+            return "h%d" % r.choice(self.pool[key])        # sharing: two references to one object
+        data = self.build(inner, depth + 1)
+        self.ops.append("BA:" + ",".join(data))
+        self.pool.setdefault(key, []).append(self.nheap)
+        self.nheap += 1
+        return "h%d" % (self.nheap - 1)
+
+    def build(self, t, depth=0):
+        """a value of type t (list of val tokens); the boxes it needs are allocated first"""
+        r = self.r
+        k = t[0]
+        if k == "N":
+            return ["n" + fhex(float(r.range(-9, 99))) for _ in range(t[1])]
+        if k == "B":
+            return [self.box(t[1], depth)]
+        if k == "A":
+            return [self.box(self.sum_named(t[1]), depth)]
+        if k == "T":
+            out = []
+            for x in t[1]:
+                out += self.build(x, depth)
+            return out
+        # sum: [tag] payload, padded to the size of the largest variant
+        nv = len(t[2])
+        leafs = [i for i, v in enumerate(t[2]) if v is None]
+        if depth >= 3 and leafs:
+            tag = r.choice(leafs)
+        else:
+            tag = r.below(nv)
+        if r.chance(1, 25):
+            tag = nv + r.below(3)                           # a tag no variant has: the walks return at once
+        pay = self.build(t[2][tag], depth) if tag < nv and t[2][tag] is not None else []
+        pad = ty_size(t) - 1 - len(pay)
+        return ["n%x" % tag] + pay + ["n0"] * pad
+
+    def run(self, nops):
+        r = self.r
+        vals = []
+        for _ in range(r.range(1, 3)):
+            ti = r.below(len(self.tt))
+            vals.append((ti, self.build(self.tt[ti])))
+        for _ in range(nops):
+            ti, v = r.choice(vals)
+            c = r.below(10)
+            if c < 4:
+                self.ops.append("UC:%s:%d" % (",".join(v), ti))
+            elif c < 8:
+                self.ops.append("UR:%s:%d" % (",".join(v), ti))
+            elif c == 8 and self.nheap:
+                self.ops.append(r.choice(["RT", "RL"]) + ":h%d" % r.below(self.nheap))
+            else:
+                ti = r.below(len(self.tt) + (1 if r.chance(1, 6) else 0))       # sometimes a type number outside the table
+                if ti < len(self.tt):
+                    vals.append((ti, self.build(self.tt[ti])))
+                else:
+                    self.ops.append("UC:n0:%d" % ti)
+        for k in range(self.nheap):                          # the reference counts afterwards (RT answers the count or `i`)
+            self.ops.append("RT:h%d" % k)
+        mode = "I" if r.chance(1, 2) else "T"
+        return "S=0;N=0;R=%s;M=%s;Y=%s;%s" % (SR, mode, "~".join(ty_show(t) for t in self.tt), ";".join(self.ops))
+
+
+STYLES = ["heap", "state", "state", "array", "array", "mixed", "mixed", "malformed", "malformed", "trait", "usersum"]
 
 
 def gen_case(rng):
     style = rng.choice(STYLES)
+    if style == "usersum":
+        return UGen(rng).run(rng.choice([2, 4, 8, 14]))
     return Gen(rng, style).run(rng.choice([3, 6, 10, 16, 24, 40]))
 
 
 # ------------------------------------------------------------------------------------------------
-# witnesses of the differences (the *_differs lemmas of Props/C01_prims.v), replayed first on every run:
+# witnesses of the differences (the *_differs lemmas of Props/C01_prims.v) and of REPAIRED differences (regression inputs: the
+# recorded answers are the repaired ones), replayed first on every run:
 # (name, sequence, expected real VM answers, expected real WASM answers)
 # ------------------------------------------------------------------------------------------------
 HDR = "S=4;N=0;R=%s;M=I;" % SR
@@ -306,15 +426,19 @@ FIXED = [
      "u;Fr", "u;w0"),
     ("delay longer than MAX_WASM_DELAY_SAMPLES: WASM returns 0.0 and keeps no history (differs_delay_cap)",
      "S=4;N=0;R=%s;M=I;SD:%s:0:%d;SD:%s:0:%d" % (SR, fhex(5.0), MAX_WASM_DELAY + 1, fhex(6.0), MAX_WASM_DELAY + 1), "Fr", "w0;w0"),
-    ("array index +infinity: VM takes element 0, WASM the last (differs_index_pinf)",
-     HDR + "AN:1:n%s,n%s,n%s;AG:a0:%s:1" % (fhex(10.0), fhex(20.0), fhex(30.0), PINF),
-     "h100000001;w" + fhex(10.0), "h1;w" + fhex(30.0)),
+    ("REPAIRED (commit 15d0817, finding P2): array index +infinity selected element 0 on the VM and the last on WASM; now both "
+     "take the last element, -infinity and NaN the first (C01_prims_ex_index_infinity_agrees)",
+     HDR + "AN:1:n%s,n%s,n%s;AG:a0:%s:1;AG:a0:%s:1;AG:a0:%s:1" % (fhex(10.0), fhex(20.0), fhex(30.0), PINF, NINF, NAN),
+     "h100000001;w%s;w%s;w%s" % (fhex(30.0), fhex(10.0), fhex(10.0)), "h1;w%s;w%s;w%s" % (fhex(30.0), fhex(10.0), fhex(10.0))),
     ("len of an array of two-word elements: VM counts elements, WASM words (differs_len_words)",
      HDR + "AN:2:n1,n2,n3,n4;AL:a0", "h100000001;w" + fhex(2.0), "h1;w" + fhex(4.0)),
     ("array handle 0 (array-valued self before its first value): VM panics, WASM reads zeros (differs_zero_handle)",
      HDR + "AG:n0:0:1", "Fh", "w0"),
     ("runtime_get_now / samplerate through the VM trait are constants (differs_now)", "S=0;N=7;R=%s;M=T;NW;SR" % SR,
      "w0;w40e7700000000000", "w%s;w%s" % (fhex(7.0), SR)),
+    ("usersum_clone retains the boxes inside a value on the VM, does nothing on the WASM host (usersum_differs)",
+     "S=0;N=0;R=%s;M=I;Y=S1(-/T(N1/A1));BA:n0;UC:n1,n3ff0000000000000,h0:0;RL:h0;LD:h0:1" % SR,
+     "h100000001;u;c1;w0", "h100000001;u;c0;Fh"),
 ]
 
 
@@ -386,7 +510,7 @@ def run_impl(exe, lines):
 # the property on the implementation's own answers
 # ------------------------------------------------------------------------------------------------
 def op_list(line):
-    return [p for p in line.split(";")[3:] if p and not p.startswith("M=")]
+    return [p for p in line.split(";")[3:] if p and not p.startswith("M=") and not p.startswith("Y=")]
 
 
 def related(spec_res, impl_res, op, tabs):
@@ -481,7 +605,7 @@ def judge(line, m, a):
         return [("P", "the harness process died on this sequence: " + a["crash"])], {}
     if "error" in a or "error" in m:
         return [("C", "input error: %s / %s" % (a.get("error"), m.get("error")))], {}
-    trait_case = any(o.startswith("TG") or o.startswith("TS") for o in op_list(line))
+    trait_case = any(o[:2] in ("TG", "TS", "UC", "UR") for o in op_list(line))   # operations outside the contract language
     if a["vm"] != m["vm"]:
         k = next((i for i, (x, y) in enumerate(zip(a["vm"], m["vm"])) if x != y), min(len(a["vm"]), len(m["vm"])))
         bad.append(("C", "VM: model (Prims/Vm.v) and implementation differ at step %d: model %s, implementation %s"
@@ -509,16 +633,43 @@ def judge(line, m, a):
     return bad, info
 
 
+def safe(line):
+    """False when the sequence would make the REAL heap code read a vacant slot-map slot (undefined behaviour, garbage answers):
+    a heap-handle argument whose raw word has an even version field — the word 0 an ordinal resolves to before it has been
+    returned, or a forged even word.  Generated sequences are safe by construction; shrinking must stay inside."""
+    nh = na = 0
+    for o in op_list(line):
+        p = o.split(":")
+        k = p[0]
+        if k in ("RT", "RL", "LD", "ST"):
+            h = p[1]
+            if h[0] == "h" and int(h[1:]) >= nh:
+                return False
+            if h[0] == "a" and (int(h[1:]) != 0 or na == 0):
+                return False
+            if h[0] == "n" and int(h[1:], 16) % 2 == 0:
+                return False
+        if k in ("HA", "BA"):
+            nh += 1
+        if k == "AN":
+            esz = int(p[1])
+            cnt = len([x for x in p[2].split(",") if x])
+            if esz > 0 and cnt % esz == 0:
+                na += 1
+    return True
+
+
 def shrink(line, fails, budget=150):
     parts = line.split(";")
-    head, ops = parts[:4], parts[4:]
+    nh = 5 if len(parts) > 4 and parts[4].startswith("Y=") else 4
+    head, ops = parts[:nh], parts[nh:]
     changed = True
     while changed and budget > 0:
         changed = False
         for i in range(len(ops) - 1, -1, -1):
             cand = ops[:i] + ops[i + 1:]
             budget -= 1
-            if fails(";".join(head + cand)):
+            if safe(";".join(head + cand)) and fails(";".join(head + cand)):
                 ops = cand
                 changed = True
                 break
@@ -576,6 +727,9 @@ def run_part(ck, quick=True):
     rng = ck.rng.fork("prims")
     ncases = 4000 if quick else 60000
     lines = [f[1] for f in FIXED] + corpus_sequences() + [gen_case(rng) for _ in range(ncases)]
+    unsafe = [l for l in lines if not safe(l)]
+    if unsafe:
+        raise RuntimeError("generator produced a sequence that provokes undefined behaviour in slotmap: " + unsafe[0][:300])
     m_ans = run_model(model, lines)
     i_ans = run_impl(impl, lines)
 
